@@ -331,26 +331,29 @@ Definition blocklist_handle (start : token) (r : rd) : cset :=
   | _ => returns
   end.
 
-(* receipts.Handler.HandleMessage (owned by C06; modelled with its defect
-   behind a flag read from the site inventory): the start element of every
-   child is dereferenced *)
-Fixpoint rcpt_loop (unguarded : bool) (k : list child) (e : kend) (tm : term) : cset :=
+(* receipts.Handler.HandleMessage (repaired: children without start element
+   are skipped; the pinned code dereferenced the nil start element).  The first
+   <received/> or <request/> child ends the loop: the receipt is signalled on a
+   channel that has room for it (never parks), the request is answered. *)
+Fixpoint rcpt_loop (k : list child) (e : kend) (tm : term) : cset :=
   match k with
   | [] => iter_end e tm
-  | CTok _ :: r => if unguarded then [CPanic] else rcpt_loop unguarded r e tm
+  | CTok _ :: r => rcpt_loop r e tm
   | CElem n _ :: r =>
       if bytes_eqb (nlocal n) (str "received") || bytes_eqb (nlocal n) (str "request") then returns
-      else rcpt_loop unguarded r e tm
+      else rcpt_loop r e tm
   end.
 
-Definition receipts_handle (unguarded : bool) (r : rd) : cset :=
+Definition receipts_handle (r : rd) : cset :=
   match r_toks r with
   | [] => [CErr]
-  | _ :: rest => let '(k, e) := kids 0 rest in rcpt_loop unguarded k e (r_term r)
+  | _ :: rest => let '(k, e) := kids 0 rest in rcpt_loop k e (r_term r)
   end.
 
-(* ibb (owned by C15): decode first; an accepted <open/> is handed to the
-   listener over an unbuffered channel *)
+(* ibb (owned by C15/C06): decode first; an accepted <open/> is answered and the
+   new connection handed to a matching Expect call if one is still waiting
+   (select with its done channel), otherwise to the listener over an
+   unbuffered channel: the handler is parked until the application calls Accept *)
 Definition ibb_iq (e : env) (start : token) : cset :=
   match start with
   | TStart n _ => if bytes_eqb (nlocal n) (str "open") && negb (e_ready e) then CBlocked :: returns else returns
@@ -372,7 +375,7 @@ Inductive stag :=
 | SGuard   (* nil start element compared with nil before use *)
 | SEnv     (* channel operation: outcome depends on the partner (env), or close guarded by a table entry *)
 | SCaller  (* input supplied by the calling application, not by the peer *)
-| SKnown   (* known defect, modelled behind a flag *)
+| SBuf     (* send on a channel that has room for it: buffered, one signal per table entry *)
 | SOther.  (* modelled by another property (form: C19) *)
 
 Definition modelled_sites : list (site * stag) := [
@@ -390,6 +393,7 @@ Definition modelled_sites : list (site * stag) := [
   (mksite (str "disco/info.go") (str "Info.AppendHash") KMake (str "make([]byte, base64.StdEncoding.EncodedLen(len(dst)))"), SSafe);
   (mksite (str "disco/info.go") (str "Info.AppendHash") KMake (str "make([]hashChunk, 0, infoForm.Len())"), SSafe);
   (mksite (str "disco/info.go") (str "Info.AppendHash") KMake (str "make([]hashChunk, 0, len(i.Form))"), SSafe);
+  (mksite (str "disco/info.go") (str "Info.TokenReader") KIndex (str "i.Form[idx]"), SSafe);
   (mksite (str "disco/info.go") (str "sortChunks") KIndex (str "c[a]"), SSafe);
   (mksite (str "disco/info.go") (str "sortChunks") KIndex (str "c[b]"), SSafe);
   (mksite (str "disco/items.go") (str "ItemIter.Next") KNilGuard (str "start, r := i.iter.Current()"), SGuard);
@@ -411,17 +415,19 @@ Definition modelled_sites : list (site * stag) := [
   (mksite (str "history/history.go") (str "Handler.remove") KClose (str "close(iter.done)"), SEnv);
   (mksite (str "history/history.go") (str "tokenReader.Token") KIndex (str "r.toks[0]"), SSafe);
   (mksite (str "history/history.go") (str "tokenReader.Token") KSlice (str "r.toks[1:]"), SSafe);
-  (mksite (str "ibb/conn.go") (str "Conn.Close") KClose (str "close(c.readReady)"), SEnv);
-  (mksite (str "ibb/conn.go") (str "Conn.closeNoNotify") KClose (str "close(c.readReady)"), SEnv);
+  (mksite (str "ibb/conn.go") (str "Conn.closeRead") KClose (str "close(c.readReady)"), SEnv);
   (mksite (str "ibb/conn.go") (str "newConn") KMake (str "make([]byte, 0, blockSize)"), SSafe);
   (mksite (str "ibb/ibb.go") (str "Handler.Listen") KIndex (str "h.l[addrStr]"), SSafe);
   (mksite (str "ibb/ibb.go") (str "Handler.addStream") KIndex (str "h.streams[sid]"), SSafe);
-  (mksite (str "ibb/ibb.go") (str "handleOpen") KSend (str "expect.c <- conn"), SEnv);
   (mksite (str "ibb/ibb.go") (str "handleOpen") KSend (str "l.c <- conn"), SEnv);
+  (mksite (str "ibb/ibb.go") (str "handleOpen") KSendSel (str "expect.c <- conn"), SEnv);
+  (mksite (str "ibb/ibb.go") (str "handlePayload") KMake (str "make([]byte, dataLen)"), SSafe);
   (mksite (str "ibb/ibb.go") (str "handlePayload") KSendSel (str "conn.readReady <- struct{}{}"), SEnv);
+  (mksite (str "ibb/ibb.go") (str "handlePayload") KSlice (str "decoded[:n]"), SSafe);
   (mksite (str "muc/muc.go") (str "Client.HandlePresence") KSendSel (str "c.j <- p.From"), SEnv);
   (mksite (str "muc/muc.go") (str "Client.HandlePresence") KSendSel (str "channel.depart <- struct{}{}"), SEnv);
   (mksite (str "muc/muc.go") (str "Client.JoinPresence") KIndex (str "c.managed[p.To.String()]"), SSafe);
+  (mksite (str "muc/room.go") (str "Channel.JoinPresence") KIndex (str "c.client.managed[p.To.String()]"), SSafe);
   (mksite (str "muc/room.go") (str "Channel.JoinPresence") KSendSel (str "c.join <- joinCtx"), SEnv);
   (mksite (str "muc/room.go") (str "Channel.JoinPresence") KSendSel (str "errChan <- err"), SEnv);
   (mksite (str "muc/room.go") (str "Channel.JoinPresence") KSendSel (str "errChan <- stanzaError"), SEnv);
@@ -436,10 +442,9 @@ Definition modelled_sites : list (site * stag) := [
   (mksite (str "mux/mux.go") (str "forChildren") KNilGuard (str "start, _ := iterator.Current()"), SGuard);
   (mksite (str "paging/rsm.go") (str "Iter.Next") KNilGuard (str "start, r := i.iter.Current()"), SGuard);
   (mksite (str "pubsub/fetch.go") (str "Iter.Next") KNilGuard (str "start, r := i.iter.Current()"), SGuard);
-  (mksite (str "receipts/receipts.go") (str "Handler.HandleMessage") KNilDeref (str "start, _ := i.Current()"), SKnown);
-  (mksite (str "receipts/receipts.go") (str "Handler.HandleMessage") KSend (str "c <- struct{}{}"), SEnv);
+  (mksite (str "receipts/receipts.go") (str "Handler.HandleMessage") KNilGuard (str "start, _ := i.Current()"), SGuard);
+  (mksite (str "receipts/receipts.go") (str "Handler.HandleMessage") KSend (str "c <- struct{}{}"), SBuf);
   (mksite (str "receipts/receipts.go") (str "Handler.SendMessage") KAssert (str "tok.(xml.StartElement)"), SCaller);
-  (mksite (str "receipts/receipts.go") (str "Handler.SendMessageElement") KClose (str "close(c)"), SEnv);
   (mksite (str "receipts/receipts.go") (str "Handler.SendMessageElement") KIndex (str "h.sent[msg.ID]"), SSafe);
   (mksite (str "roster/roster.go") (str "DeleteIQ") KIndex (str "iq.Query.Item[i]"), SSafe);
   (mksite (str "roster/roster.go") (str "Iter.Next") KNilGuard (str "start, r := i.iter.Current()"), SGuard);
@@ -449,12 +454,13 @@ Definition modelled_sites : list (site * stag) := [
   (mksite (str "session.go") (str "handleInputStream") KIndex (str "start.Attr[i]"), SSafe);
   (mksite (str "session.go") (str "handleInputStream") KSendSel (str "readerChan.c <- iqResponder{ r: xmlstream.Wrap(inner, start), c: readerChan.c, }"), SEnv);
   (mksite (str "session.go") (str "iqResponder.Close") KClose (str "close(r.c)"), SEnv);
+  (mksite (str "session.go") (str "stanzaEncoder.EncodeToken") KMake (str "make([]xml.Attr, 0, len(tok.Attr)+2)"), SSafe);
   (mksite (str "session.go") (str "stanzaEncoder.EncodeToken") KSlice (str "tok.Attr[:0]"), SSafe);
   (mksite (str "session_iq.go") (str "Session.SendIQ") KIndex (str "start.Attr[idx]"), SSafe);
+  (mksite (str "session_iq.go") (str "Session.SendIQ") KMake (str "make([]xml.Attr, 0, len(start.Attr)+1)"), SSafe);
   (mksite (str "stanza/error.go") (str "Error.UnmarshalXML") KIndex (str "se.Text[text.Lang]"), SSafe);
   (mksite (str "stanza/error.go") (str "Error.Wrap") KIndex (str "se.Text[lang]"), SSafe);
-  (mksite (str "stanza/error.go") (str "UnmarshalError") KNilGuard (str "start, p := iter.Current()"), SGuard);
-  (mksite (str "receipts/receipts.go") (str "Handler.HandleMessage") KNilGuard (str "start, _ := i.Current()"), SGuard)
+  (mksite (str "stanza/error.go") (str "UnmarshalError") KNilGuard (str "start, p := iter.Current()"), SGuard)
 ].
 
 Definition owned_files : list bytes := [
@@ -462,7 +468,8 @@ Definition owned_files : list bytes := [
   str "commands/commands.go"; str "commands/actions.go"; str "roster/roster.go"; str "pubsub/fetch.go";
   str "blocklist/blocking.go"; str "blocklist/handler.go"; str "bookmarks/iter.go"; str "carbons/carbons.go";
   str "carbons/handler.go"; str "forward/forward.go"; str "xtime/time.go"; str "version/version.go"; str "ping/ping.go";
-  str "upload/upload.go"; str "disco/handler.go"; str "disco/items.go"; str "paging/rsm.go"].
+  str "upload/upload.go"; str "disco/handler.go"; str "disco/items.go"; str "paging/rsm.go";
+  str "receipts/receipts.go"].
 
 Definition skind_eqb (a b : skind) : bool :=
   match a, b with
@@ -492,21 +499,20 @@ Definition covered (s : site) : bool :=
   if owned s then existsb (fun m => site_eqb s (fst m)) modelled_sites
   else negb (dangerous_kind (s_kind s)) || existsb (fun m => site_loose_eqb s (fst m)) modelled_sites.
 
-(* flags read from the inventory *)
-Definition receipts_site : site :=
-  mksite (str "receipts/receipts.go") (str "Handler.HandleMessage") KNilDeref (str "start, _ := i.Current()").
-
-Definition receipts_unguarded (sites : list site) : bool := existsb (site_loose_eqb receipts_site) sites.
+(* a dangerous kind in a repaired file needs an exact entry that says why it is
+   harmless there: the data is the application's, or the channel has room *)
+Definition justified (s : site) : bool :=
+  existsb (fun m => site_eqb s (fst m) && match snd m with SCaller | SBuf => true | _ => false end) modelled_sites.
 
 (* ---- running a component ---- *)
 
 Definition first_rd (rs : list rd) : rd := match rs with r :: _ => r | [] => mkrd [] TmEOF end.
 
-Definition run_comp (sites : list site) (c : comp) (e : env) (start : token) (rs : list rd) : cset :=
+Definition run_comp (c : comp) (e : env) (start : token) (rs : list rd) : cset :=
   let r := first_rd rs in
   match c with
   | HHistory => history_handle e r
-  | HReceipts => receipts_handle (receipts_unguarded sites) r
+  | HReceipts => receipts_handle r
   | HCarbons => carbons_handle r
   | HBlocklist => blocklist_handle start r
   | HRoster | HXtime | HPing | HIbbMsg | HMucPres | HMucMsg => returns
@@ -533,16 +539,16 @@ Inductive outcome := Returned | Panicked | Wedged.
 
 Record inv := mkinv { i_comp : comp; i_env : env; i_start : token; i_rds : list rd }.
 
-Definition run_inv (sites : list site) (i : inv) : cset :=
-  run_comp sites (i_comp i) (i_env i) (i_start i) (i_rds i).
+Definition run_inv (i : inv) : cset :=
+  run_comp (i_comp i) (i_env i) (i_start i) (i_rds i).
 
-Fixpoint serve_may (sites : list site) (script : list (list inv)) : list outcome :=
+Fixpoint serve_may (script : list (list inv)) : list outcome :=
   match script with
   | [] => [Returned]
   | el :: rest =>
-      (if existsb (fun i => mem CPanic (run_inv sites i)) el then [Panicked] else []) ++
-      (if existsb (fun i => mem CBlocked (run_inv sites i)) el then [Wedged] else []) ++
-      Returned :: serve_may sites rest
+      (if existsb (fun i => mem CPanic (run_inv i)) el then [Panicked] else []) ++
+      (if existsb (fun i => mem CBlocked (run_inv i)) el then [Wedged] else []) ++
+      Returned :: serve_may rest
   end.
 
 (* ---- correspondence ---- *)
@@ -550,7 +556,7 @@ Fixpoint serve_may (sites : list site) (script : list (list inv)) : list outcome
 Record ccase := mkcase { cc_comp : comp; cc_env : env; cc_start : token; cc_rds : list rd; cc_obs : cls }.
 
 Definition case_ok (c : ccase) : bool :=
-  mem (cc_obs c) (run_comp generated_sites (cc_comp c) (cc_env c) (cc_start c) (cc_rds c)).
+  mem (cc_obs c) (run_comp (cc_comp c) (cc_env c) (cc_start c) (cc_rds c)).
 
 Fixpoint failing {A} (ok : A -> bool) (i : nat) (l : list A) : list nat :=
   match l with
